@@ -37,8 +37,8 @@ CLAIM = dict(
     "and evaluated by the kernel per table.",
     note="transport_density itself (face_to_cell, norms, the loop over the rule) is tied numerically: real solver objects vs the sum over the "
     "model's rule, 1e-13; numpy evaluates the literal expressions in floating point (validated against the symbolic values to 1e-15 on every "
-    "run); N-D exactness is stated for monomials and finite sums thereof (product of 1-D integrals), not via a measure-theoretic "
-    "cube integral.",
+    "run); N-D exactness: for d = 2, 3 every polynomial (term list) of per-variable degree <= 2n-1 against the iterated interval "
+    "integral over the square / cube (both cells); for general d as the product of 1-D integrals; no measure-theoretic cube integral.",
     technique="Lean 4 proof (sound computable checker + decide +kernel per generated table) + G2 extraction validated against the running code + exhaustive oracle",
 )
 
@@ -816,5 +816,5 @@ def run(ctx):
     ctx.assumptions += [
         "numpy evaluates the literal table expressions in IEEE doubles: symbolic value vs float within 1e-15 (measured on every run)",
         "oracle tolerance on float moments 2e-14 * measure (sums of <= 27 terms of size <= 8)",
-        "N-D exactness is stated for monomials / finite sums thereof with the product of 1-D interval integrals",
+        "N-D polynomials are term lists (coefficient, exponents); d = 2, 3 against iterated interval integrals",
     ]
